@@ -2365,6 +2365,31 @@ class Region:
                                              re.sub(r"\s+", " ", self.tu.text_of(bad[0]))))
                 else:
                     self.block_clips.append((True, desc, lst[0][0], ""))
+                # a clipped LENGTH N - ip is negative for surplus threads (ip = B*t > N): harmless as a signed
+                # loop bound, but it must not reach an unsigned parameter of a callee unguarded
+                is_len = any(fl_ == {nvar: 1, ip: -1} for rhs, ctx in lst for fl_, _ in self._leaves(rhs) for ip in ips)
+                if is_len and not re.search(r"unsigned|size_t|uint", qt(self.func.vars.get(vid, {}))):
+                    for cnode, cctx in self.call_ev:
+                        names, _ = self.prog.call_targets(self.func, cnode)
+                        cargs = kids(cnode)[1:]
+                        for nm in names:
+                            g_ = self.prog.funcs.get(nm)
+                            if g_ is None:
+                                continue
+                            for ai, a_ in enumerate(cargs[:len(g_.params)]):
+                                sa_ = strip(a_)
+                                if sa_.get("kind") != "DeclRefExpr" or sa_["referencedDecl"]["id"] != vid:
+                                    continue
+                                if not re.search(r"unsigned|size_t|uint", qt(g_.params[ai])):
+                                    continue
+                                guarded = any(ck == "if" and vid in self._refs(ex)[0]
+                                              for ck, _, _, exprs in cctx.ctrl for ex in exprs)
+                                if not guarded:
+                                    self.block_clips.append((
+                                        False, desc + " passed to %s as %s" % (nm, qt(g_.params[ai])), cnode,
+                                        "%s: negative for surplus threads (ip > %s), converted to a huge %s" % (
+                                            re.sub(r"\s+", " ", self.tu.text_of(cnode))[:60], name.get(nvar, "?"),
+                                            qt(g_.params[ai]))))
 
     # -- worksharing constructs reached by all threads ---------------------------
     def _uniformity(self):
